@@ -576,9 +576,15 @@ SNAP* SessionKeys::tkip_decrypt_unicast(const Dot11Data& dot11, RawPDU& raw) con
 }
 
 SNAP* SessionKeys::decrypt_unicast(const Dot11Data& dot11, RawPDU& raw) const {
-    return is_ccmp_ ? 
-           ccmp_decrypt_unicast(dot11, raw) :
-           tkip_decrypt_unicast(dot11, raw);
+    try {
+        return is_ccmp_ ? 
+               ccmp_decrypt_unicast(dot11, raw) :
+               tkip_decrypt_unicast(dot11, raw);
+    }
+    catch (exception_base&) {
+        // The decrypted payload could not be dissected
+        return 0;
+    }
 }
 
 const SessionKeys::ptk_type& SessionKeys::get_ptk() const {
